@@ -314,6 +314,11 @@ class Trialer:
                 v.append(Violation(PROPERTY, "C13.propagation", sig + ":fault-swallowed:" + (site[0] + ":" + site[1] + "->" + site[3] if site else label), "fault %s at %s did not reach the caller: it returned %s, which differs from the fault-free result" % (label, where, str(capture(returned))[:120])))
         elif not in_chain(err_or_none, injected, marker):
             v.append(Violation(PROPERTY, "C13.propagation", sig + ":fault-replaced-by-unrelated-exception:" + (site[0] + ":" + site[1] + "->" + site[3] if site else label), "fault %s at %s surfaced as %s without the injected error on its chain" % (label, where, exc_chain(err_or_none))))
+        elif (err_or_none is not injected and isinstance(err_or_none, OSError) and not (marker and marker in str(err_or_none))
+              and getattr(err_or_none, "filename", None) in set(self.tmp_names) and err_or_none.__cause__ is None):
+            # what the caller catches is an OSError about the CACHE FILE raised by clean-up code while the real error was
+            # propagating (implicit __context__ only): the failure was replaced, `except <real type>` no longer sees it
+            v.append(Violation(PROPERTY, "C13.propagation", sig + ":fault-masked-by-cache-cleanup-error:" + (site[0] + ":" + site[1] + "->" + site[3] if site else label), "fault %s at %s surfaced as %s raised by the clean-up of the cache file; the real error is only its __context__" % (label, where, exc_chain(err_or_none)[:300])))
         else:
             if err_or_none is not injected:
                 probes["fault_surfaced_wrapped_or_converted"] = probes.get("fault_surfaced_wrapped_or_converted", 0) + 1
